@@ -4,9 +4,12 @@ import (
 	"context"
 	"database/sql/driver"
 	"fmt"
+	"io"
 	"math/rand"
+	"net"
 	"os"
 	"strings"
+	"syscall"
 
 	"verif/harness/engines/rdcat"
 )
@@ -71,7 +74,11 @@ func (c *ccase) class(answer string) string {
 }
 
 var shapes = []string{"empty", "one", "one", "few", "few", "few", "batch", "many"}
-var modes = []string{"ok", "ok", "ok", "ok", "ok", "ok", "err-open", "err-row", "err-row", "cancel-open", "cancel-row"}
+var modes = []string{"ok", "ok", "ok", "ok", "ok", "ok", "err-open", "err-row", "err-row", "cancel-open", "cancel-row", "err-conn"}
+
+// connErrs: what a statement returns while the database cannot be reached or drops every connection
+var connErrs = []error{io.EOF, io.ErrUnexpectedEOF, syscall.ECONNRESET, syscall.EPIPE, driver.ErrBadConn,
+	&net.OpError{Op: "dial", Net: "tcp", Err: syscall.ECONNREFUSED}, &net.OpError{Op: "read", Net: "tcp", Err: syscall.ECONNRESET}}
 
 func genCase(r *rand.Rand, idx int) *ccase {
 	if r.Intn(12) == 0 && os.Getenv("VERIF_C12_ENDPOINT") == "" {
@@ -101,6 +108,9 @@ func genCase(r *rand.Rand, idx int) *ccase {
 	}
 	if c.DB.Mode == "err-row" || c.DB.Mode == "cancel-row" {
 		c.DB.ErrAt = []int{0, 1, 2, 50, 99, 100, 101, 5000}[r.Intn(8)]
+	}
+	if c.DB.Mode == "err-conn" {
+		c.DB.Target = -1
 	}
 	if r.Intn(40) == 0 {
 		c.DB.Mode, c.DB.ErrAt, c.DB.Twist = "err-schema", r.Intn(2), ""
@@ -232,6 +242,9 @@ func (c *ccase) answer(ctx context.Context, n int, k rdcat.Kind, hold func(i int
 		return rdcat.OK(k, rdcat.WellShaped(k, r, 3, rdcat.FromS*1e9, rdcat.ToS*1e9))
 	}
 	switch c.DB.Mode {
+	case "err-conn":
+		// the database is away for as long as the request lasts: every statement fails at the connection level
+		return rdcat.Answer{Err: connErrs[c.Idx%len(connErrs)]}
 	case "err-open":
 		return rdcat.Answer{Err: fmt.Errorf("code: 241, message: scripted failure at open (Memory limit exceeded)")}
 	case "cancel-open":
